@@ -85,7 +85,7 @@ Print Assumptions C17_exactly_once.
 Theorem C17_invariant :
   forall (nthr maxn : nat) (evs : list event) (st : state),
   grun true (init nthr maxn) evs = Some st -> INV st.
-Proof. intros nthr maxn evs st H. exact (grun_inv evs _ _ (inv_init nthr maxn) H). Qed.
+Proof. exact invariant_lemma. Qed.
 Print Assumptions C17_invariant.
 
 (* Non-vacuity: a concrete run of the current code meets all hypotheses - two connections with traffic,
@@ -130,10 +130,7 @@ Print Assumptions C17_listener_respects_unique_numbers.
 Theorem C17_listener_no_record_to_dead_pipeline :
   forall (nthr maxn : nat) (levs : list levent) (ls : lstate),
   lrun true true (linit nthr maxn) levs = Some ls -> log_ok (st_log (l_st ls)).
-Proof.
-  intros nthr maxn levs ls H.
-  exact (no_dead_pipeline_lemma nthr maxn (api_events levs) (l_st ls) (listener_safe_lemma nthr maxn levs ls H)).
-Qed.
+Proof. exact listener_no_dead_pipeline_lemma. Qed.
 Print Assumptions C17_listener_no_record_to_dead_pipeline.
 
 Theorem C17_listener_no_loss :
@@ -141,10 +138,7 @@ Theorem C17_listener_no_loss :
   lrun true true (linit nthr maxn) levs = Some ls ->
   cnt r (delivered_recs (st_log (l_st ls))) + cnt r (buffered (l_st ls)) + cnt r (inflight (l_st ls)) =
   cnt r (acc_of_events (api_events levs)).
-Proof.
-  intros nthr maxn levs ls r H.
-  exact (no_loss_count_lemma nthr maxn (api_events levs) (l_st ls) r (listener_safe_lemma nthr maxn levs ls H)).
-Qed.
+Proof. exact listener_no_loss_lemma. Qed.
 Print Assumptions C17_listener_no_loss.
 
 (* Defect 14 (fixed in /repo): with the ORIGINAL listener ([lstep false]) the uniqueness of client numbers
@@ -167,6 +161,25 @@ Theorem C17_slot_reuse_excluded :
     [LConnOpen 0 0; LApi (ENewEnd 0); LApi (EAccBegin 0 [1%N]); LApi (EAccEnd 0); LAbort 0; LFdClosed 0] = None.
 Proof. exact slot_reuse_excluded_lemma. Qed.
 Print Assumptions C17_slot_reuse_excluded.
+
+(* Nothing waits forever for the lock (no deadlock): in every reachable state a goroutine inside a downstream
+   call can complete it; reload() past Lock() can take its next step; reload() at Lock() proceeds when no
+   reader is left and, while readers are left, one of them can leave; when reload() does not hold the lock
+   an idle open connection can start Accept / Tick / Close. *)
+Theorem C17_progress :
+  forall (nthr maxn : nat) (evs : list event) (st : state),
+  grun true (init nthr maxn) evs = Some st ->
+  (forall t c, get_thr st t = Some c -> in_lock c = true -> exists st', step true st (end_event t c) = Some st') /\
+  (rl_post (st_rl st) = true -> exists st', step true st ERlStep = Some st') /\
+  (st_rl st = RWantLock -> st_readers st = 0 -> exists st', step true st ERlLock = Some st') /\
+  (st_rl st = RWantLock -> st_readers st <> 0 ->
+     exists t c st', get_thr st t = Some c /\ in_lock c = true /\ step true st (end_event t c) = Some st') /\
+  (st_writer st = false -> forall t n, get_thr st t = Some (mkThr n HOpen PIdle) ->
+     (forall rs, exists st', step true st (EAccBegin t rs) = Some st') /\
+     (exists st', step true st (ETickBegin t) = Some st') /\
+     (exists st', step true st (ECloseBegin t) = Some st')).
+Proof. exact progress_lemma. Qed.
+Print Assumptions C17_progress.
 
 (* The tie between the correspondence check and the theorems: whatever schedule the harness executes, the model
    state whose projection is compared with the real code is reached by a run of [step] - the list of events
